@@ -20,7 +20,7 @@ rm -f $demo
 go test -vet=off -count=1 ./... > "$d/suite.log" 2>&1; suite=$?
 echo "RESULT $sd applies=yes suite_rc=$suite demo_with_rc=$with demo_without_rc=$without"
 for p in "$@"; do
-  /verif/bin/verifchk -prop "$p" -repo "$d/repo" -verif "$d/verif" > "$d/chk.log" 2>&1; rc=$?
+  ${VERIFCHK:-/verif/bin/verifchk} -prop "$p" -repo "$d/repo" -verif "$d/verif" > "$d/chk.log" 2>&1; rc=$?
   echo "  CHECK $p exit=$rc"; grep -A1 '^VIOLATION' "$d/chk.log" | grep -v '^VIOLATION\|^--' | sed "s#$d/##g" | cut -c1-260 | head -${MAXV:-4}
   grep '^CHECKER-ERROR' "$d/chk.log" | head -3
 done
